@@ -70,7 +70,7 @@ Lemma pop1_level : forall fx b b1, pop1 fx b = Some b1 -> level b1 = level b - 1
 Proof.
   intros fx b b1 H. unfold pop1 in H. unfold level.
   destruct (b_frames b) as [|f0 [|f1 rest]] eqn:E; try discriminate.
-  destruct (pop_scope (fx_erase fx) (b_global b) (b_names b)); try discriminate.
+  destruct (pop_scope (fx_erase fx) (fx_guard fx) (b_global b) (b_names b)); try discriminate.
   destruct (df_pop (b_defs b)); try discriminate.
   inversion H; subst; clear H. cbn [b_frames length]. split; lia.
 Qed.
